@@ -17,7 +17,8 @@ type ctx struct {
 	tier  string
 	w     *tr.W
 	rng   *tr.Rng
-	only  int // when > 0 run only this case number (replay)
+	only  int    // when > 0 run only this case number (replay)
+	sub   string // the sub-command (property) being run
 	extra map[string]interface{}
 }
 
@@ -55,7 +56,7 @@ func main() {
 		fmt.Fprintln(os.Stderr, err)
 		os.Exit(2)
 	}
-	c := &ctx{seed: *seed, tier: *tier, w: w, rng: tr.NewRng(*seed*0x9E3779B97F4A7C15 + 12345), only: *only, extra: map[string]interface{}{}}
+	c := &ctx{sub: name, seed: *seed, tier: *tier, w: w, rng: tr.NewRng(*seed*0x9E3779B97F4A7C15 + 12345), only: *only, extra: map[string]interface{}{}}
 	if err := f(c); err != nil {
 		fmt.Fprintln(os.Stderr, "harness error:", err)
 		_ = w.Close()
